@@ -432,6 +432,9 @@ class CommitHandler(processor.CommitHandler):
         email = self._utf8_decode(f"{section} email", email)
 
         if email:
+            if not name:
+                # no leading space: "<joe@example.com>" round-trips
+                return f"<{email}>"
             return f"{name} <{email}>"
         else:
             return name
